@@ -1078,4 +1078,122 @@ Section Ops.
       + destruct builder; cbn [norm]; rewrite ?norms_fix; unfold mkop; cbn [opt_all]; rewrite Hgs; reflexivity.
       + intros f Hf. apply Hrt. destruct builder; cbn [depth] in Hf; rewrite ?depth_list_fix in Hf; exact Hf.
   Qed.
+
+  (* ---- fixed operators with name / byte / word items ---- *)
+  Lemma rt_fixed f el opb code items its body :
+    (forall p el r0, parse_step env p el (opb ++ r0) = parse_op p code r0) ->
+    op_table code = Some (mk false items LNone) ->
+    (forall r, parse_items (parse env f) items (body ++ r) = Some (its, r)) ->
+    rt (parse env (S f)) el (opb ++ body) (GOp code its []).
+  Proof.
+    intros Hd Ht Hi r. cbn [parse]. rewrite <- app_assoc. rewrite Hd. eapply parse_op_fixed; [exact Ht|apply Hi].
+  Qed.
+
+  Lemma RT_name p i : RT i -> RT (TName p i).
+  Proof.
+    intros IHi el md b W E Hsz. prep E W. destruct W as [Wp Wi].
+    destruct (enc_path_text p) as [ep|] eqn:Ep; [|discriminate]. cbn [option_bind] in E.
+    destruct (enc md i) as [ei|] eqn:Ei; [|discriminate]. cbn [option_bind] in E. inversion E; subst b.
+    cbn [app length] in Hsz. rewrite !app_length in Hsz.
+    destruct (IHi false md ei Wi Ei) as (gi & Hgi & Hrt); [lia|].
+    destruct (name_item p ep [] Wp Ep) as (rt0 & segs & Hng & _).
+    exists (GOp 0x08 [GName rt0 segs; gi] []). split; [unfold mkop; cbn [opt_all]; rewrite Hng, Hgi; reflexivity|].
+    intros f Hf. fuel f. apply (rt_fixed f el [0x08] 0x08 [KName; KTerm] [GName rt0 segs; gi] (ep ++ ei)); [dsp|reflexivity|].
+    intros r. destruct (name_item p ep (ei ++ r) Wp Ep) as (rt1 & segs1 & Hng1 & Hd1).
+    rewrite Hng in Hng1. inversion Hng1; subst. rewrite <- app_assoc.
+    eapply parse_items_name; [exact Hd1|]. eapply parse_items_term; [apply Hrt; lia|reflexivity].
+  Qed.
+
+  Lemma RT_opregion p sp o l : RT o -> RT l -> RT (TOpRegion p sp o l).
+  Proof.
+    intros IHo IHl el md b W E Hsz. prep E W. destruct W as (Wp & Wsp & Wo & Wl).
+    destruct (enc_path_text p) as [ep|] eqn:Ep; [|discriminate]. cbn [option_bind] in E.
+    destruct (enc md o) as [eo|] eqn:Eo; [|discriminate]. destruct (enc md l) as [el0|] eqn:El; [|discriminate].
+    cbn [option_bind] in E. inversion E; subst b. cbn [app length] in Hsz. rewrite !app_length in Hsz. cbn [length] in Hsz.
+    rewrite ?app_length in Hsz.
+    destruct (IHo false md eo Wo Eo) as (go & Hgo & Hrto); [lia|].
+    destruct (IHl false md el0 Wl El) as (gl & Hgl & Hrtl); [lia|].
+    destruct (name_item p ep [] Wp Ep) as (rt0 & segs & Hng & _).
+    exists (GOp 0x5B80 [GName rt0 segs; GNum sp; go; gl] []).
+    split; [unfold mkop; cbn [opt_all]; rewrite Hng, Hgo, Hgl; reflexivity|].
+    intros f Hf. fuel f.
+    apply (rt_fixed f el [0x5B; 0x80] 0x5B80 [KName; KByte; KTerm; KTerm] [GName rt0 segs; GNum sp; go; gl] (ep ++ [sp] ++ eo ++ el0));
+      [dsp|reflexivity|].
+    intros r. destruct (name_item p ep ([sp] ++ eo ++ el0 ++ r) Wp Ep) as (rt1 & segs1 & Hng1 & Hd1).
+    rewrite Hng in Hng1. inversion Hng1; subst. rewrite <- !app_assoc.
+    eapply parse_items_name; [exact Hd1|]. cbn [app]. apply parse_items_byte.
+    eapply parse_items_term; [apply Hrto; lia|]. eapply parse_items_term; [apply Hrtl; lia|reflexivity].
+  Qed.
+
+  Lemma RT_mutex p sy : RT (TMutex p sy).
+  Proof.
+    intros el md b W E Hsz. prep E W. destruct W as (Wp & Wsy).
+    destruct (enc_path_text p) as [ep|] eqn:Ep; [|discriminate]. cbn [option_bind] in E. inversion E; subst b.
+    destruct (name_item p ep [] Wp Ep) as (rt0 & segs & Hng & _).
+    exists (GOp 0x5B01 [GName rt0 segs; GNum sy] []). split; [unfold mkop; cbn [opt_all]; rewrite Hng; reflexivity|].
+    intros f Hf. fuel f.
+    apply (rt_fixed f el [0x5B; 0x01] 0x5B01 [KName; KByte] [GName rt0 segs; GNum sy] (ep ++ [sy])); [dsp|reflexivity|].
+    intros r. destruct (name_item p ep ([sy] ++ r) Wp Ep) as (rt1 & segs1 & Hng1 & Hd1).
+    rewrite Hng in Hng1. inversion Hng1; subst. rewrite <- !app_assoc.
+    eapply parse_items_name; [exact Hd1|]. cbn [app]. apply parse_items_byte. reflexivity.
+  Qed.
+
+  Lemma RT_acquire p tm : RT (TAcquire p tm).
+  Proof.
+    intros el md b W E Hsz. prep E W. destruct W as (Wp & Wtm).
+    destruct (enc_path_text p) as [ep|] eqn:Ep; [|discriminate]. cbn [option_bind] in E. inversion E; subst b.
+    destruct (name_item p ep [] Wp Ep) as (rt0 & segs & Hng & _).
+    exists (GOp 0x5B23 [GName rt0 segs; GNum tm] []). split; [unfold mkop; cbn [opt_all]; rewrite Hng; reflexivity|].
+    intros f Hf. fuel f.
+    apply (rt_fixed f el [0x5B; 0x23] 0x5B23 [KName; KWord] [GName rt0 segs; GNum tm] (ep ++ w2 tm)); [dsp|reflexivity|].
+    intros r. destruct (name_item p ep (w2 tm ++ r) Wp Ep) as (rt1 & segs1 & Hng1 & Hd1).
+    rewrite Hng in Hng1. inversion Hng1; subst. rewrite <- !app_assoc.
+    eapply parse_items_name; [exact Hd1|]. apply parse_items_word; [exact Wtm|reflexivity].
+  Qed.
+
+  Lemma RT_release p : RT (TRelease p).
+  Proof.
+    intros el md b Wp E Hsz. prep E Wp.
+    destruct (enc_path_text p) as [ep|] eqn:Ep; [|discriminate]. cbn [option_bind] in E. inversion E; subst b.
+    destruct (name_item p ep [] Wp Ep) as (rt0 & segs & Hng & _).
+    exists (GOp 0x5B27 [GName rt0 segs] []). split; [unfold mkop; cbn [opt_all]; rewrite Hng; reflexivity|].
+    intros f Hf. fuel f.
+    apply (rt_fixed f el [0x5B; 0x27] 0x5B27 [KName] [GName rt0 segs] ep); [dsp|reflexivity|].
+    intros r. destruct (name_item p ep r Wp Ep) as (rt1 & segs1 & Hng1 & Hd1).
+    rewrite Hng in Hng1. inversion Hng1; subst. eapply parse_items_name; [exact Hd1|reflexivity].
+  Qed.
+
+  Lemma RT_call p args : Forall RT args -> RT (TCall p args).
+  Proof.
+    intros HF el md b W E Hsz. prep E W. destruct W as ((q & Hq & Hwf & Har) & Wargs).
+    destruct (enc_path_text p) as [ep|] eqn:Ep; [|discriminate]. cbn [option_bind] in E.
+    destruct (encs md args) as [ea|] eqn:Ea; [|discriminate]. cbn [option_bind] in E. inversion E; subst b.
+    rewrite app_length in Hsz.
+    destruct (kids_rt env md false args HF Wargs ea Ea) as (es & gs & -> & Hgs & Hlen & Hall); [lia|].
+    rewrite Hq. fold (norms false args). rewrite Hgs.
+    eexists. split; [reflexivity|]. intros f Hf. fuel f. intros r.
+    destruct (path_text_decode p q ep (concat es ++ r) Hq Hwf Ep) as [Hd Hh].
+    cbn [parse]. rewrite <- app_assoc. rewrite (parse_step_name env _ el ep (concat es ++ r) _ _ _ Hh Hd).
+    destruct el.
+    - (* element position: a bare reference, no arguments allowed *)
+      subst args. destruct es; [|discriminate]. inversion Hgs; subst. reflexivity.
+    - unfold key_of in Har. rewrite Har, <- Hlen. rewrite (parse_n_concat (parse env f) es gs r) by (apply Hall; lia). reflexivity.
+  Qed.
+
+  (* the round trip, for every term of the well-formed fragment *)
+  Theorem roundtrip : forall t, RT t.
+  Proof.
+    induction t using term_ind'.
+    - apply RT_zero. - apply RT_one. - apply RT_ones. - apply RT_int. - apply RT_str. - apply RT_path.
+    - apply RT_fieldname. - apply RT_eisa. - apply RT_uuid. - apply RT_bufdata. - apply RT_arg. - apply RT_local.
+    - intros el md b W. destruct W.
+    - now apply RT_op1. - now apply RT_op2. - now apply RT_op3. - now apply RT_op4.
+    - now apply RT_name. - now apply RT_device. - now apply RT_scope. - now apply RT_scoperaw. - now apply RT_method.
+    - now apply RT_power. - now apply RT_opregion. - apply RT_mutex. - apply RT_acquire. - apply RT_release.
+    - now apply RT_call.
+    - intros el md b W. destruct W.
+    - now apply (RT_package false). - now apply (RT_package true).
+    - intros el md b W. destruct W.
+    - now apply (RT_ifwhile true). - now apply RT_else. - now apply (RT_ifwhile false).
+  Qed.
 End Ops.
